@@ -1,6 +1,7 @@
 package c09
 
 import (
+	"github.com/ajitpratap0/GoSQLX/pkg/sql/security"
 	"reflect"
 	"strings"
 
@@ -78,6 +79,38 @@ func enumerateReleaseAudit(e *common.Enum, targets []*cleanTarget, pooled map[re
 					c.Fail("tree-differs-from-fresh:Parse", "the second of two trees held together differs from the tree parsed from empty pools "+sqlgen.FirstDiff(ref, db))
 				}
 				c.Count("transitions", 3)
+				// read-only consumers of a held tree: serialisers, traversal, every extractor, the scanner - the tree is the
+				// caller's, and looking at it must leave every field of every node as it was
+				consumers := []struct {
+					name string
+					run  func(t *sqlast.AST)
+				}{
+					{"AST.SQL", func(t *sqlast.AST) { _ = t.SQL() }},
+					{"AST.Format", func(t *sqlast.AST) { _ = t.Format(sqlast.ReadableStyle()) }},
+					{"ast.Inspect", func(t *sqlast.AST) { sqlast.Inspect(t, func(sqlast.Node) bool { return true }) }},
+					{"ExtractTables", func(t *sqlast.AST) { _ = gosqlx.ExtractTables(t) }},
+					{"ExtractTablesQualified", func(t *sqlast.AST) { _ = gosqlx.ExtractTablesQualified(t) }},
+					{"ExtractColumns", func(t *sqlast.AST) { _ = gosqlx.ExtractColumns(t) }},
+					{"ExtractColumnsQualified", func(t *sqlast.AST) { _ = gosqlx.ExtractColumnsQualified(t) }},
+					{"ExtractFunctions", func(t *sqlast.AST) { _ = gosqlx.ExtractFunctions(t) }},
+					{"ExtractMetadata", func(t *sqlast.AST) { _ = gosqlx.ExtractMetadata(t) }},
+					{"Scanner.Scan", func(t *sqlast.AST) { _ = security.NewScanner().Scan(t) }},
+				}
+				for _, cons := range consumers {
+					func() {
+						defer func() {
+							if r := recover(); r != nil {
+								c.Outcome("audit:consumer-panicked") // C01's business
+							}
+						}()
+						cons.run(a)
+					}()
+					c.Count("transitions", 1)
+					if da := deepDump(a); da != ref {
+						c.Fail("held-modified:tree:"+cons.name, "a held tree changed during "+cons.name+" (a read-only consumer): "+sqlgen.FirstDiff(ref, da))
+						break
+					}
+				}
 			}
 			c.State(common.Hash64("audit|" + sql))
 			if c.Failed() {
